@@ -6,7 +6,7 @@
    of arbitrary depth, with arbitrary user code ([behaviour]).  Every statement below is universal over
    trees [T], behaviours [beh], worlds [w] (and run parameters); [wf_tree T] says only that parent ids
    are smaller than child ids, a nested node's child points back at it and graph 0 is the root. *)
-Require Import Base Sched Nested NestedWitness NestedFacts.
+Require Import Base Sched Nested NestedWitness NestedFacts NestedInv.
 
 (* ---------------------------------------------------------------- child_never_early *)
 (* (a) The only evaluation a nested / try_except node ever requests of its child graph is at the
@@ -75,6 +75,47 @@ Theorem parent_due_no_later_pull :
 Proof. exact pull_arms_owner. Qed.
 Print Assumptions parent_due_no_later_pull.
 
+(* WHOLE-RUN INVARIANT, cache half of `parent_due_no_later` (the tree version of EngineFacts.boundary):
+   for every well-formed tree WITHOUT try_except nodes (no exception is ever captured at graph level; with
+   one the statement is false - finding F1, corpus/nest/kf_wake_lost_*.case), every user code, every
+   state the simulation loop reaches without an error (after start, after every root cycle), at EVERY depth:
+   no graph is in the middle of a cycle, every graph's cursor is at rest, and the cached next time of every
+   started graph is <= every armed slot inside it.  By induction over the run loop, the nesting depth and
+   the forward scan (NestedInv.v: scan_good / eval_graph_good / start_graph_good). *)
+Theorem parent_due_no_later_cache :
+  forall T beh rr start end_ fuel,
+    wf_tree T -> no_try T -> (0 < length T)%nat -> 0 <= start <= MAX_DT -> end_ <= MAX_DT ->
+    let w := run_sim T beh rr start end_ fuel in
+    ok w = true ->
+    forall g, g_evaluating (gat g w) = false
+      /\ (g_cursor (gat g w) = 0 \/ g_cursor (gat g w) = -1)
+      /\ (g_started (gat g w) = true ->
+          forall j, (j < length (gc_nodes (gcfg_at T g)))%nat -> (j < length (g_slots (gat g w)))%nat ->
+                    g_now (gat g w) < slot_at j (gat g w) -> g_nst (gat g w) <= slot_at j (gat g w)).
+Proof.
+  intros T beh rr start end_ fuel HT HN HL Hs He w Hok g.
+  destruct (run_sim_good T beh rr HT HN HL start end_ fuel Hs He Hok) as (C & Q & _).
+  assert (E : g_evaluating (gat g w) = false) by (apply Q; lia).
+  destruct (C g E) as [A B]. split; [exact E|split; [exact A|]]. intros S j Hj Hsl Harm. exact (B S j Hj Hsl Harm).
+Qed.
+Print Assumptions parent_due_no_later_cache.
+
+(* the same for one completed cycle of any graph at any depth, from any good state (the inductive step) *)
+Theorem parent_due_no_later_cycle :
+  forall T beh rr, wf_tree T -> no_try T -> forall f c t w,
+    Good T c w -> (c < length T)%nat -> ok (eval_graph f T beh rr c t w) = true ->
+    Good T c (eval_graph f T beh rr c t w).
+Proof. intros T beh rr HT HN f c t w. exact (proj2 (proj2 (eval_graph_good T beh HT HN rr f c t w))). Qed.
+Print Assumptions parent_due_no_later_cycle.
+
+(* NOT PROVED as a whole-run invariant: the owner half "owner slot armed and <= the child's cached next
+   time".  It is established locally by the push and the pull (next two theorems) but is only invariant for
+   RANKED trees (every producer evaluated before its consumers' owners): in an unranked tree a same-cycle
+   notification arriving after the owner was scanned overwrites the owner's future slot with the current
+   time (schedule_node_impl: `when < scheduled`) and the child's wake-up is lost.  Proving it needs the
+   invariant "the evaluating graphs form the owner chain of the node being evaluated" over the recursion;
+   the correspondence and the oracle's timer check (`wake_lost`) carry it. *)
+
 (* ---------------------------------------------------------------- no_child_wake_lost *)
 (* FULL STATEMENT: from parent_due_no_later and the root's C02.wake_exact: every pending slot of every
    node at every depth is the time of a root cycle in which the chain of owners evaluates down to it.
@@ -92,6 +133,19 @@ Proof.
   - apply sched_at_top_err; auto.
 Qed.
 Print Assumptions no_child_wake_lost_recorded.
+
+(* no_child_wake_lost, PARTIAL: in every good boundary state (previous theorem), if the owners of graph c
+   up to the root are due (each owner slot armed and <= the cached next time of the child it owns - what
+   push and pull establish), the root's next cycle is no later than ANY armed slot inside c, at any depth *)
+Theorem no_child_wake_lost_partial :
+  forall T d c j w,
+    Cov T w -> Quiet 0 w -> g_started (gat c w) = true ->
+    (j < length (gc_nodes (gcfg_at T c)))%nat -> (j < length (g_slots (gat c w)))%nat ->
+    g_now (gat c w) < slot_at j (gat c w) ->
+    owners_due d T c w ->
+    g_nst (gat 0 w) <= slot_at j (gat c w).
+Proof. exact root_next_le_child_slot. Qed.
+Print Assumptions no_child_wake_lost_partial.
 
 (* notifications (an outer producer ticking an input bound into a child, at any depth) never fail *)
 Theorem notification_never_in_the_past :
@@ -142,3 +196,15 @@ Example push_hypotheses_inhabited :
   gc_parent (gcfg_at T 1) = Some (0%nat, 1%nat) /\ w_err w = 0 /\ idle 1 w = true /\ now_of 1 w <= 9
   /\ (0 < length (w_gs w))%nat /\ (1 < length (g_slots (gat 0 w)))%nat.
 Proof. vm_compute. repeat split; try reflexivity; try lia; intros H; discriminate. Qed.
+
+(* the whole-run invariant is not vacuous: a depth-2 nest without try_except, run to the end without error;
+   in its final state the owner chain of the innermost graph is as the theorem says *)
+Example whole_run_invariant_inhabited :
+  let T := decode nest2_case in
+  let w := run_sim T (script_beh nest2_case) true 1 8 8 in
+  wf_tree T /\ no_try T /\ (0 < length T)%nat /\ ok w = true
+  /\ g_started (gat 2 w) = true /\ g_now (gat 2 w) = 5.
+Proof.
+  split; [exact wf_nest2|split; [exact no_try_nest2|]]. vm_compute. repeat split; try reflexivity; lia.
+Qed.
+
